@@ -233,7 +233,9 @@ class Builder:
         if r.random() < 0.15 and self.allow_cpa:
             body.append(self.cpa())
         ref = r.choice(["${" + nm + "}", '"${' + nm + '}"'])
-        impl = Item(ikind, ikind, [ref, "self"] + pw, iuid, body=body, endcmd="end" + ikind, is_impl=True,
+        # the instance argument is positional: any name may be used for it
+        selfname = r.choice(["self", "self", "this", "_self", "me", "${self}", "obj"])
+        impl = Item(ikind, ikind, [ref, selfname] + pw, iuid, body=body, endcmd="end" + ikind, is_impl=True,
                     name=ref, params=pe)
         kind = "cpp_constructor" if ctor else "cpp_member"
         return Item(kind, kind, [nm, cls] + types, uid, doc=self.doc(uid), impl=impl, name=nm, params=pe, types=types)
